@@ -38,6 +38,7 @@ type vflNode struct {
 	K    int    `json:"k"`
 	OKey bool   `json:"okey"`
 	Err  int    `json:"err"` // 1-based position of an error chunk (0 = none)
+	Pan  int    `json:"pan"` // S node: its stream is wrapped by StreamReaderWithConvert whose convert function panics on its pan-th chunk
 }
 
 type vflBranch struct {
@@ -139,6 +140,16 @@ func vflLambda(r *vflRec, n vflNode) *Lambda {
 			atomic.AddInt32(&r.started, 1)
 			r.emit(`{"ev":"start","n":%q}`, n.Name)
 			go vflProduce(r, n, sw)
+			if n.Pan > 0 {
+				calls := 0
+				return schema.StreamReaderWithConvert(sr, func(m map[string]any) (map[string]any, error) {
+					calls++
+					if calls == n.Pan {
+						panic("vfl convert panic")
+					}
+					return m, nil
+				}), nil
+			}
 			return sr, nil
 		})
 	case "T":
